@@ -507,7 +507,7 @@ theorem strunc_loop (env : Env) (hE : EnvOk env) :
       exact loop_first_cut env f fds n acc s (sreadByte_cut s _ k (by simp) hc)
   | (i, v) :: fs, fds, f, s, k, lo, acc, n+1, hok, h, hf, hc => by
       simp only [wtMsg] at h
-      obtain ⟨hlo, hi, ⟨fd, hfd, hwv⟩, hrest⟩ := h
+      obtain ⟨hlo, hi, ⟨fd, hfd, _, hwv⟩, hrest⟩ := h
       simp only [rankFields] at hf
       have h1 : rank v < f := by omega
       have h2 : rankFields fs < f := by omega
